@@ -164,7 +164,8 @@ namespace Givaro{
         Element& mul(Element& r, const Element& a, const Element& b) const;
 
         Element& div(Element& r, const Element& a, const Element& b) const{
-            return mulin(inv(r, b), a);
+            Element ib;
+            return mul(r, a, inv(ib, b));
         }
         Element& add(Element& r, const Element& a, const Element& b) const {
             r = a + b;
